@@ -55,3 +55,10 @@ mk("H6-braces", [(r, sub(r"            if \(nconv >= m_nev\)\n                br
                  for r in ["HermEigsBase.h", "GenEigsBase.h"]])
 mk("H7-yoda", [("LinAlg/BKLDLT.h", sub(r"if \(akk == Scalar\(0\)\)", "if (Scalar(0) == akk)", need=2))])
 mk("H8-whitespace", [("Util/SimpleRandom.h", sub(r"\n    }\n", "\n    }\n\n", need=2)), ("Util/SelectionRule.h", sub(r";\n", ";  \n", need=10))])
+
+# restructured but equivalent BothEnds interleave (generalized argsort extraction + weak policy must not raise an alarm)
+mk("H9-bothends-ternary", [("Util/SelectionRule.h", sub(r"            if \(i % 2 == 0\)\n                ind\[i\] = ind_copy\[i / 2\];\n            else\n                ind\[i\] = ind_copy\[len - 1 - i / 2\];\n",
+                                                      "            ind[i] = (i % 2 == 0) ? ind_copy[i / 2] : ind_copy[len - 1 - i / 2];\n"))])
+mk("H10-bothends-two-copies", [("Util/SelectionRule.h", chain(sub(r"        std::vector<Index> ind_copy\(ind\);\n", "        const std::vector<Index> ind_large(ind);\n        const std::vector<Index> ind_small(ind);\n"),
+                                                             sub(r"ind\[i\] = ind_copy\[i / 2\];", "ind[i] = ind_large[i / 2];"),
+                                                             sub(r"ind\[i\] = ind_copy\[len - 1 - i / 2\];", "ind[i] = ind_small[len - 1 - i / 2];")))])
